@@ -19,13 +19,21 @@ try:
 except Exception:
     pass
 
+# files written by the cases of the reconf stream (resolv.conf, hosts)
+try:
+    SIM_DIR = os.path.join(vlib.CACHE, "simfiles")
+    os.makedirs(SIM_DIR, exist_ok=True)
+except Exception:
+    SIM_DIR = "."
+
 PROP = Property(
     pid="C01",
     properties_v="Properties/Properties_C01.v",
     coq_targets=["Extract/Extract_Lifecycle.vo"],
     engines=[Engine(name="chan01", c_srcs=["harness/sim.c", "harness/chan_drv.c", "harness/chan01_trace.c"],
                     ml_srcs=["ocaml/gen/LifecycleModel.ml", "ocaml/chan01_drv.ml"], ml_packages=["str"],
-                    wraps=WRAPS, gen=histgen.gen, n_quick=3000, n_thorough=30000, timeout=3000)],
+                    wraps=WRAPS, gen=histgen.gen, n_quick=3000, n_thorough=30000, timeout=3000,
+                    env={"VERIF_SIM_DIR": SIM_DIR})],
     trusted_base=["Coq 8.16.1 kernel + coqc (vm_compute; no native_compute)",
                   "extraction (ExtrOcamlBasic only, no Extract Constant) + OCaml 4.13.1",
                   "harness/sim.c + harness/chan_drv.c (channel simulator: virtual sockets, clock, RNG; callback bookkeeping)",
